@@ -117,7 +117,7 @@ Definition kC_getter : program :=
   {| p_getter := true; p_start := 2; p_pb := 10; p_body := (SCons (SIfElse 12 (COpaque (EIdent 1)) (SArrowStmt 20 26 (SCons (SThrow 28 ELit) SNil)) (SArrowStmt 45 51 (SCons (SThrow 53 ELit) SNil))) SNil) |}.
 (* function f() { switch (d) { case 0: function v5() { return 1; } case 1: v999(); } } *)
 Definition kC_case_body := SCons (SFnDecl 36 5 50 (SCons (SRet 52 (Some ELit)) SNil)) SNil.
-Definition kC_case_cases := CCons 28 false false kC_case_body (CCons 64 false false (SCons (SExpr 72 (ECall 999)) SNil) CNil).
+Definition kC_case_cases := CCons 28 (Some ELit) false kC_case_body (CCons 64 (Some ELit) false (SCons (SExpr 72 (ECall 999)) SNil) CNil).
 Definition kC_case : program :=
   {| p_getter := false; p_start := 0; p_pb := 13; p_body := SCons (SSwitch 15 kC_case_cases) SNil |}.
 
